@@ -655,13 +655,13 @@ Fixpoint run (c : cfg) (s : st) (l : list op) : list (st * list uev * list call)
    capacity. While it is parked nothing else is handled (the harness does not schedule anything else
    either); calls a handler makes after its blocked `.await` (force_close in the timer arm) are held
    back until it resumes. `LPoll` is one `handle.next()`: the oldest queued event, else the oldest
-   queued notification of a peer that is still in the handle's `peers` map. Send operations are left
+   queued notification whose stream is the one whose sink the handle holds for the peer. Send operations are left
    to the eager model above. *)
 Record lst := mkL {
   ls : st;
   lq : list uev;          (* emitted and not yet delivered, oldest first *)
   lsk : list N;           (* the tasks whose sinks the queued NotificationStreamOpened events carry *)
-  lnf : list peer;        (* the handle's notification channel *)
+  lnf : list (peer * N);  (* the handle's notification channel: (peer, stream = Connection task that forwarded it) *)
   lheld : list call       (* calls of a parked handler that come after its blocked await *)
 }.
 
@@ -684,11 +684,27 @@ Definition timer_op (o : op) : bool := match o with Timer _ => true | _ => false
 Definition lskip (cap : nat) (l : lst) (o : op) : bool :=
   parked cap l || send_op o.
 
-(* the next notification the handle hands out: entries of peers that are not in `peers` are discarded *)
-Fixpoint next_notif (s : st) (l : list peer) : option peer * list peer :=
+(* the notifications of notifs_of together with the stream (Connection task) that forwards them *)
+Definition notifs_k (s : st) (o : op) : list (peer * N) :=
+  match o with
+  | Notify p | NotifyDie p _ =>
+      match lastt s p with
+      | Some k => if running s k then [(p, k)] else []
+      | None => []
+      end
+  | _ => []
+  end.
+
+(* `self.peers.get(&peer).map_or(false, |sink| sink.stream_id() == stream_id)` *)
+Definition sink_is (s : st) (x : peer * N) : bool :=
+  hopen s (fst x) && match hsink s (fst x) with Some k => k =? snd x | None => false end.
+
+(* the next notification the handle hands out: entries of peers that are not in `peers`, or whose sink in
+   `peers` belongs to another stream than the one the notification arrived on, are discarded *)
+Fixpoint next_notif (s : st) (l : list (peer * N)) : option peer * list (peer * N) :=
   match l with
   | [] => (None, [])
-  | p :: t => if hopen s p then (Some p, t) else next_notif s t
+  | x :: t => if sink_is s x then (Some (fst x), t) else next_notif s t
   end.
 
 (* result: new state, what this `handle.next()` returned, calls made on the service *)
@@ -702,7 +718,7 @@ Definition lstep (c : cfg) (cap : nat) (l : lst) (g : lop) : option (lst * list 
         | Some (s1, ev, calls) =>
             let q1 := lq l ++ ev in
             let k1 := lsk l ++ new_sinks (ls l) ev in
-            let n1 := lnf l ++ notifs_of (ls l) o in
+            let n1 := lnf l ++ notifs_k (ls l) o in
             if parked cap (mkL s1 q1 k1 n1 (lheld l)) && timer_op o
             then Some (mkL s1 q1 k1 n1 calls, [], [])
             else Some (mkL s1 q1 k1 n1 (lheld l), [], calls)
